@@ -381,7 +381,7 @@ pub fn run(ctx: &Ctx) -> Outcome {
     }
     let depth = if ctx.quick() { 5 } else { 6 };
     let deadline = Instant::now() + Duration::from_secs_f64(ctx.budget_s);
-    let xs: Vec<u32> = if ctx.quick() { vec![0, u32::MAX - 1] } else { vec![0, u32::MAX - 2, u32::MAX - 1, u32::MAX] };
+    let xs: Vec<u32> = if ctx.quick() { vec![0, u32::MAX - 1, u32::MAX] } else { vec![0, u32::MAX - 2, u32::MAX - 1, u32::MAX] };
     let (mut states, mut transitions, mut executions) = (0, 0, 0);
     let mut truncated = false;
     let mut samples = vec![];
